@@ -83,6 +83,8 @@ Definition lstep (ls : list bool) (m : lmach) (e : ev) : lmach * list lobs :=
       | None, p :: ws => lacquire ls m p ws
       | _, _ => (m, [])
       end
+  | Cancel _ => (m, [])     (* cancellation is treated in Model.v; a call cancelled inside a listener leaves the later
+                               listeners untold, which the property does not exclude *)
   end.
 
 Fixpoint lrun (ls : list bool) (m : lmach) (es : list ev) : lmach * list lobs :=
@@ -155,7 +157,7 @@ Qed.
 
 Lemma lstep_ok : forall ls m e m' o, linv m -> lstep ls m e = (m', o) -> linv m' /\ lobs_documented o.
 Proof.
-  intros ls m e m' o I H. destruct e as [c|i| |]; cbn [lstep] in H.
+  intros ls m e m' o I H. destruct e as [c|i| | |i]; cbn [lstep] in H.
   - inv H. split; [exact I | apply lobs_documented_nil].
   - destruct (take i (l_created m)) as [[p rest]|]; [|inv H; split; [exact I | apply lobs_documented_nil]].
     destruct (l_holder m) as [h|] eqn:Hh.
@@ -176,6 +178,7 @@ Proof.
   - destruct (l_holder m) as [h|] eqn:Hh; [inv H; split; [exact I | apply lobs_documented_nil]|].
     destruct (l_waiters m) as [|p ws]; [inv H; split; [exact I | apply lobs_documented_nil]|].
     eapply lacquire_ok. exact H.
+  - inv H. split; [exact I | apply lobs_documented_nil].
 Qed.
 
 Lemma lrun_ok : forall ls es m, linv m -> lobs_documented (snd (lrun ls m es)).
@@ -265,7 +268,7 @@ Qed.
 Lemma lstep_same : forall ls m e m' o acc, told_same (length ls) m acc -> lstep ls m e = (m', o) ->
   told_same (length ls) m' (acc ++ o).
 Proof.
-  intros ls m e m' o acc T H. destruct e as [c|i| |]; cbn [lstep] in H.
+  intros ls m e m' o acc T H. destruct e as [c|i| | |i]; cbn [lstep] in H.
   - inv H. rewrite app_nil_r. exact T.
   - destruct (take i (l_created m)) as [[p rest]|]; [|inv H; rewrite app_nil_r; exact T].
     destruct (l_holder m) as [h|] eqn:Hh.
@@ -293,6 +296,7 @@ Proof.
   - destruct (l_holder m) as [h|] eqn:Hh; [inv H; rewrite app_nil_r; exact T|].
     destruct (l_waiters m) as [|p ws]; [inv H; rewrite app_nil_r; exact T|].
     eapply lacquire_same; [|exact H]. unfold told_same in T. rewrite Hh in T. exact T.
+  - inv H. rewrite app_nil_r. exact T.
 Qed.
 
 Lemma lrun_same : forall ls es m acc, told_same (length ls) m acc ->
